@@ -398,16 +398,18 @@ class _RealRunner(_Runner):
         """real Block objects compare by identity, so `_update_q` does not meld an add with the remove of a RE-DELIVERED copy of
         the same header (a new object); what the property speaks about is what the queued ops replay to: that list is shown as
         one add per position (the form the model's melded queue has), or the raw queue when it does not replay"""
-        lst = []
+        lst, base = [], None          # the queue starts at the first index it ever saw (a preloaded / locked prefix is not in it)
         for o in self.q:
             hh = self.hid(o[1].hash()) if o[1] is not None else -1
-            if o[0] == "add" and o[2] == len(lst):
+            if base is None and o[0] == "add":
+                base = o[2]
+            if o[0] == "add" and base is not None and o[2] == base + len(lst):
                 lst.append(hh)
-            elif o[0] == "remove" and o[2] == len(lst) - 1 and lst[-1] == hh:
+            elif o[0] == "remove" and lst and o[2] == base + len(lst) - 1 and lst[-1] == hh:
                 lst.pop()
             else:
                 return _show_ops(self.q, self.hid)
-        return _dots("+%d@%d" % (hh, i) for i, hh in enumerate(lst))
+        return _dots("+%d@%d" % (hh, (base or 0) + i) for i, hh in enumerate(lst))
 
 
 def parse_two(op: str):
